@@ -197,11 +197,17 @@ theorem oodParse_set {e : Codec ε} (he : e.RT) (cur next : List ε) (lag : Opti
         rw [interleave_length cur next hlen] at hTr
         unfold oodParse
         rw [if_neg (by omega)]
-        simp only [hLmod, bind_apply, readU8_cons]
+        simp only [hLmod]
         by_cases hL : (lag.getD []).isEmpty = true
-        · have hL0 : (lag.getD []).length = 0 := by simpa [List.isEmpty_iff] using hL
-          simp only [hL, if_true, hL0, Nat.lt_irrefl, if_false, pure_apply, Option.isSome_none, Bool.false_eq_true,
-            Nat.add_zero, Nat.sub_zero]
+        · have hL0 : lag.getD [] = [] := by simpa [List.isEmpty_iff] using hL
+          have hlr : runAll (do
+                let n ← readU8
+                if n > 0 then do
+                  let l ← readMany e.dec n
+                  pure (some l)
+                else pure none) ((lag.getD []).length :: encMany e (lag.getD [])) = .ok (none : Option (List ε)) := by
+            simp [runAll, hL0, encMany, readU8_cons]
+          simp only [hlr, hL, if_true, Option.isSome_none, Bool.false_eq_true, if_false, Nat.add_zero, Nat.sub_zero]
           rw [if_neg (by omega)]
           have : main + (cur.length - main) = cur.length := by omega
           simp [runAll, readU8_cons, this, hTr, hEv, deinterleave_interleave cur next hlen]
@@ -210,8 +216,14 @@ theorem oodParse_set {e : Codec ε} (he : e.RT) (cur next : List ε) (lag : Opti
             | nil => simp [hg] at hL
             | cons x xs => simp
           have hLf : (lag.getD []).isEmpty = false := by simpa using hL
-          simp only [hLf, Bool.false_eq_true, if_false, hLpos, if_true, bind_apply, hLag, pure_apply,
-            Option.isSome_some]
+          have hlr : runAll (do
+                let n ← readU8
+                if n > 0 then do
+                  let l ← readMany e.dec n
+                  pure (some l)
+                else pure none) ((lag.getD []).length :: encMany e (lag.getD [])) = .ok (some (lag.getD [])) := by
+            simp [runAll, readU8_cons, hLpos, hLag]
+          simp only [hlr, hLf, Bool.false_eq_true, if_false, Option.isSome_some, if_true]
           rw [if_neg (by omega)]
           have : main + (cur.length - main + 1 - 1) = cur.length := by omega
           simp only [this]
